@@ -55,7 +55,8 @@ Begin(k) == /\ lock = "none" /\ kind = "none" /\ ~inRec
 \* StartTxn: shared lock.  Not while a flush runs; an unannounced one is a read.
 \* Nor by a statement that released the lock with stamped changes it had not logged: such a statement is over (Aborted).
 SharedLock == /\ lock = "none" /\ ~inRec
-              /\ kind \in DML => stamped \subseteq logged
+              /\ kind \in DML => stamped = {}     \* ... and one that has changed pages under the lock does not take it a second time:
+                                                  \* between its two halves the flusher - and a crash - would see some of its rows
               /\ lock' = "S" /\ kind' = (IF kind = "none" THEN "read" ELSE kind)
               /\ UNCHANGED <<inRec, stamp, stamped, logged, lastStamp, maxLogged, unlogged, disk, hdrNext, hdrNx, hdrDone>>
 
